@@ -215,7 +215,7 @@ class HumanMessageSerializer:
         if serializer and beautify and not isinstance(var_val, VerbatimHumanVal):
             try:
                 pretty_data = serializer.deserialize(block, var_val, pod=True)
-                if pretty_data is not se.UNSERIALIZABLE:
+                if pretty_data is not se.UNSERIALIZABLE and cls._packs_back(serializer, block, pretty_data, var_val):
                     string += f"  {var_name} =| {cls._multi_line_pformat(pretty_data)}"
                     if serializer.AS_HEX and isinstance(var_val, int):
                         var_data = hex(var_val)
@@ -239,6 +239,19 @@ class HumanMessageSerializer:
                     var_data = "[[CIRCUIT_CODE]]"
         string += f"  {field_prefix}{var_name} = {var_data}"
         return string
+
+    @staticmethod
+    def _packs_back(serializer, block, pretty_data, var_val) -> bool:
+        # Only show the pretty form if packing it gives the original value back, otherwise the
+        # text would parse to a different message than the one it was made from.
+        try:
+            packed = serializer.serialize(block, pretty_data)
+        except:
+            return False
+        if isinstance(var_val, (bytes, bytearray)) or isinstance(packed, (bytes, bytearray)):
+            return isinstance(var_val, (bytes, bytearray)) and isinstance(packed, (bytes, bytearray)) \
+                and bytes(packed) == bytes(var_val)
+        return packed == var_val
 
     @staticmethod
     def _multi_line_pformat(val):
